@@ -654,14 +654,25 @@ impl Exec {
                     Out::Ok(String::new()),
                 ),
                 "extend_chars" => {
-                    let hint = Self::num(t.get(2))?;
                     let items = parse_items_chars(t.get(3)?)?;
                     iter_items = Some(items.iter().flatten().map(|c| c.to_string()).collect());
-                    let (i1, i2) = (Items { items: items.clone(), pos: 0, hint }, Items { items, pos: 0, hint: 0 });
-                    (
-                        guarded(|| { ls.extend(i1); Out::Ok(String::new()) }),
-                        guarded(|| { or.extend(i2); Out::Ok(String::new()) }),
-                    )
+                    if *t.get(2)? == "exact" {
+                        // an ExactSizeIterator (Vec<char>): size_hint = (n, Some(n)); no panicking item
+                        let v: Vec<char> = items.iter().map(|c| *c).collect::<Option<Vec<char>>>()?;
+                        let v2 = v.clone();
+                        let by_ref = v.len() % 2 == 1;
+                        (
+                            guarded(|| { if by_ref { ls.extend(v.iter()) } else { ls.extend(v.into_iter()) }; Out::Ok(String::new()) }),
+                            guarded(|| { or.extend(v2); Out::Ok(String::new()) }),
+                        )
+                    } else {
+                        let hint = Self::num(t.get(2))?;
+                        let (i1, i2) = (Items { items: items.clone(), pos: 0, hint }, Items { items, pos: 0, hint: 0 });
+                        (
+                            guarded(|| { ls.extend(i1); Out::Ok(String::new()) }),
+                            guarded(|| { or.extend(i2); Out::Ok(String::new()) }),
+                        )
+                    }
                 }
                 "extend_strs" | "write" => {
                     let items = parse_items_strs(t.get(2)?)?;
@@ -857,14 +868,22 @@ impl Exec {
                 })
             }
             "collect_chars" => {
-                let hint = Self::num(t.get(2))?;
                 let items = parse_items_chars(t.get(3)?)?;
                 let want: String = items.iter().flatten().collect();
-                let it = Items { items, pos: 0, hint };
-                let o = guarded(|| {
-                    val = Some(it.collect::<LeanString>());
-                    Out::Ok(String::new())
-                });
+                let o = if *t.get(2)? == "exact" {
+                    let v: Vec<char> = items.iter().map(|c| *c).collect::<Option<Vec<char>>>()?;
+                    guarded(|| {
+                        val = Some(if v.len() % 2 == 1 { v.iter().collect::<LeanString>() } else { v.into_iter().collect::<LeanString>() });
+                        Out::Ok(String::new())
+                    })
+                } else {
+                    let hint = Self::num(t.get(2))?;
+                    let it = Items { items, pos: 0, hint };
+                    guarded(|| {
+                        val = Some(it.collect::<LeanString>());
+                        Out::Ok(String::new())
+                    })
+                };
                 orc = Some(want);
                 o
             }
@@ -1211,6 +1230,13 @@ impl Exec {
                     if events != [Ev::Alloc(16 + a.len)] || a.cap != a.len || a.kind != 'H' {
                         self.fail(&["C09"], format!("`{opline}` built a {}-byte text with kind {} capacity {} events {:?} (want exactly one allocation of the exact size)", a.len, a.kind, a.cap, events.iter().map(|e| e.fmt()).collect::<Vec<_>>()));
                     }
+                }
+            }
+        }
+        if base == "with_capacity" && ok {
+            if let (Some(a), Some(n)) = (&a_t, t.get(2).and_then(|x| x.parse::<usize>().ok())) {
+                if n <= 16 && (a.kind != 'I' || !events.is_empty()) {
+                    self.fail(&["C09"], format!("`{opline}` (capacity within the inline size) touched the heap: kind {} events {:?}", a.kind, events.iter().map(|e| e.fmt()).collect::<Vec<_>>()));
                 }
             }
         }
